@@ -19,3 +19,151 @@ def replay(ctx, rep):
         return 1
     print('not reproduced')
     return 0
+
+
+# ---------------------------------------------------------------------------
+# ownership of LOADED models: a forest with one to three roots saved (XMI / JSON, positional or uuid) and loaded into a
+# fresh resource set, then edited: every object has exactly one owner (a containment slot or one resource's root list)
+# and eResource says where it is (oracle on the implementation only; the kernel model has no files)
+
+def loaded_scenarios(ctx, out):
+    import os
+    import tempfile
+    from harness import common
+    common.use_repo()
+    from pyecore import ecore as E
+    from pyecore.resources import ResourceSet, URI
+    from pyecore.resources.json import JsonResource
+    rng = common.rng_for(ctx.seed, 'C02:loaded')
+    n = 40 if ctx.tier != 'thorough' else 800
+    cnt = 0
+    for it in range(n):
+        fmt = rng.choice(['xmi', 'json'])
+        uuid = rng.random() < 0.4
+        pkg = E.EPackage('p', nsURI=f'http://verif/c02/loaded/{it}', nsPrefix='p')
+        N = E.EClass('N')
+        N.eStructuralFeatures.append(E.EAttribute('name', E.EString))
+        N.eStructuralFeatures.append(E.EReference('kids', N, upper=-1, containment=True))
+        N.eStructuralFeatures.append(E.EReference('one', N, containment=True))
+        pkg.eClassifiers.append(N)
+
+        def new_rset():
+            rs = ResourceSet()
+            rs.metamodel_registry[pkg.nsURI] = pkg
+            rs.resource_factory['json'] = lambda uri: JsonResource(uri)
+            return rs
+        count = [0]
+
+        def mk(d):
+            o = N(name=f'n{count[0]}')
+            count[0] += 1
+            if d < 2:
+                for _ in range(rng.randrange(0, 3)):
+                    o.kids.append(mk(d + 1))
+                if rng.random() < 0.3:
+                    o.one = mk(d + 1)
+            return o
+        nroots = rng.choice([1, 2, 2, 3])
+        hist = [['format', fmt, 'uuid', uuid, 'roots', nroots]]
+        case = {'scenario': 'loaded', 'seed': ctx.seed, 'tier': ctx.tier, 'history': hist}
+        with tempfile.TemporaryDirectory() as tmp:
+            try:
+                rs = new_rset()
+                res = rs.create_resource(URI(os.path.join(tmp, 'm.' + fmt)))
+                res.use_uuid = uuid
+                for _ in range(nroots):
+                    res.append(mk(0))
+                res.save()
+                rs2 = new_rset()
+                r1 = rs2.get_resource(URI(os.path.join(tmp, 'm.' + fmt)))
+                r2 = rs2.create_resource(URI(os.path.join(tmp, 'other.' + fmt)))
+                objs = [o for r in r1.contents for o in [r] + list(r.eAllContents())]
+
+                def verdict():
+                    for o in objs:
+                        listed = [r for r in (r1, r2) for x in r.contents if x is o]
+                        c = o.eContainer()
+                        held = c is not None and any(x is o for f in ('kids',) for x in c.kids) or (c is not None and c.one is o)
+                        if len(listed) > 1:
+                            return 'two-owners', f'{o.name} is a root of {len(listed)} resource lists'
+                        if listed and c is not None:
+                            return 'two-owners', f'{o.name} is a root of a resource and contained in {c.name}'
+                        if c is not None and not held:
+                            return 'container-without-slot', f'{o.name} names {c.name} as its container but no containment slot of it holds it'
+                        top = o
+                        while top.eContainer() is not None:
+                            top = top.eContainer()
+                        where = [r for r in (r1, r2) if any(x is top for x in r.contents)]
+                        want = where[0] if where else None
+                        if o.eResource is not want:
+                            return 'eresource', (f'{o.name}.eResource is {getattr(getattr(o.eResource, "uri", None), "plain", o.eResource)!s} but its root {top.name} is '
+                                                 f'{"in " + os.path.basename(want.uri.plain) if want else "in no resource"}')
+                    return None
+                bad = verdict()
+                for step in range(rng.randrange(2, 7)):
+                    if bad:
+                        break
+                    o = rng.choice(objs)
+                    k = rng.choice(['to-other', 'to-first', 'contain', 'release', 'rremove'])
+                    try:
+                        if k == 'to-other':
+                            r2.append(o)
+                        elif k == 'to-first':
+                            r1.append(o)
+                        elif k == 'contain':
+                            p = rng.choice(objs)
+                            a, cyc = p, False
+                            while a is not None:
+                                cyc = cyc or a is o
+                                a = a.eContainer()
+                            if cyc:
+                                continue
+                            if rng.random() < 0.7:
+                                p.kids.append(o)
+                            else:
+                                p.one = o
+                            hist.append([k, o.name, p.name])
+                        elif k == 'release':
+                            c = o.eContainer()
+                            if c is None:
+                                continue
+                            if c.one is o:
+                                c.one = None
+                            else:
+                                c.kids.remove(o)
+                        elif k == 'rremove':
+                            rr = o.eResource
+                            if rr is None or not any(x is o for x in rr.contents):
+                                continue
+                            rr.remove(o)
+                        if k != 'contain':
+                            hist.append([k, o.name])
+                    except Exception as e:  # noqa
+                        hist.append([k, o.name, type(e).__name__])
+                        bad = ('edit-raised', f'{k} {o.name}: {type(e).__name__}: {e}')
+                        break
+                    cnt += 1
+                    bad = verdict()
+                if bad:
+                    out.fail({'property': 'C02', 'clause': bad[0], 'scenario': 'loaded', 'format': fmt},
+                             f'after {hist[-1]}: {bad[1]}', case)
+            except Exception as e:  # noqa
+                out.fail({'property': 'C02', 'clause': 'loaded-raised', 'scenario': 'loaded', 'format': fmt},
+                         f'{type(e).__name__}: {e}', case)
+    out.coverage['loaded_model_edits_checked'] = cnt
+
+
+_kernel_run = run
+_kernel_replay = replay
+
+
+def run(ctx, out):   # noqa: F811
+    _kernel_run(ctx, out)
+    loaded_scenarios(ctx, out)
+
+
+def replay(ctx, rep):   # noqa: F811
+    if rep.get('case', {}).get('scenario') == 'loaded':
+        from harness import common
+        return common.scenario_replay(ctx, rep, {'loaded': loaded_scenarios})
+    return _kernel_replay(ctx, rep)
